@@ -33,34 +33,39 @@ theorem nodup_insert {l : List Nat} (a : Nat) (h : l.Nodup) : (l.insert a).Nodup
   · rw [List.insert_of_mem m]; exact h
   · rw [List.insert_of_not_mem m]; exact List.nodup_cons.mpr ⟨m, h⟩
 
-/-- a duplicate-free list of numbers below `n` that all satisfy `p` is no longer than the number
-    of such numbers -/
-theorem length_le_countP_range (p : Nat → Bool) :
-    ∀ (n : Nat) (l : List Nat), l.Nodup → (∀ x ∈ l, x < n ∧ p x = true) →
-      l.length ≤ (List.range n).countP p := by
-  intro n
-  induction n with
-  | zero =>
-    intro l _ h
-    cases l with
-    | nil => simp
-    | cons a t => exact absurd (h a (by simp)).1 (by omega)
-  | succ n ih =>
-    intro l hn h
-    have h' : ∀ x ∈ l.erase n, x < n ∧ p x = true := by
+/-- a duplicate-free list is no longer than any list that contains its elements -/
+theorem nodup_subset_length_le :
+    ∀ (l m : List Nat), l.Nodup → (∀ x ∈ l, x ∈ m) → l.length ≤ m.length := by
+  intro l
+  induction l with
+  | nil => intro m _ _; simp
+  | cons a t ih =>
+    intro m hn h
+    have hn' := List.nodup_cons.mp hn
+    have ha : a ∈ m := h a (List.mem_cons_self ..)
+    have ht : ∀ x ∈ t, x ∈ m.erase a := by
       intro x hx
-      have hm := (hn.mem_erase_iff).mp hx
-      have hx' := h x hm.2
-      exact ⟨by have := hm.1; omega, hx'.2⟩
-    have ih' := ih (l.erase n) (hn.erase n) h'
-    rw [List.range_succ, List.countP_append]
-    by_cases m : n ∈ l
-    · have hl := List.length_erase_of_mem m
-      have hp := (h n m).2
-      have h1 : List.countP p [n] = 1 := by simp [hp]
-      have hpos : 0 < l.length := List.length_pos_of_mem m
-      omega
-    · rw [List.erase_of_not_mem m] at ih'; omega
+      have hne : x ≠ a := fun e => hn'.1 (e ▸ hx)
+      exact (List.mem_erase_of_ne hne).mpr (h x (List.mem_cons_of_mem _ hx))
+    have := ih (m.erase a) hn'.2 ht
+    have hl := List.length_erase_of_mem ha
+    have hpos : 0 < m.length := List.length_pos_of_mem ha
+    simp only [List.length_cons]
+    omega
+
+/-- a duplicate-free list of members of `m` that all satisfy `p` is no longer than the number of
+    such members -/
+theorem length_le_countP (p : Nat → Bool) (m l : List Nat) (hn : l.Nodup)
+    (h : ∀ x ∈ l, x ∈ m ∧ p x = true) : l.length ≤ m.countP p := by
+  rw [List.countP_eq_length_filter]
+  exact nodup_subset_length_le l (m.filter p) hn (fun x hx => List.mem_filter.mpr (h x hx))
+
+/-- if every member of the duplicate-free `m` with `p` is in `l`, there are at most `l.length` of them -/
+theorem countP_le_length (p : Nat → Bool) (m l : List Nat) (hm : m.Nodup)
+    (h : ∀ x ∈ m, p x = true → x ∈ l) : m.countP p ≤ l.length := by
+  rw [List.countP_eq_length_filter]
+  exact nodup_subset_length_le (m.filter p) l (hm.sublist List.filter_sublist)
+    (fun x hx => h x (List.mem_filter.mp hx).1 (List.mem_filter.mp hx).2)
 
 /-! ### the loop invariant -/
 
@@ -220,8 +225,8 @@ theorem inv_verifyAcc {env : Env} {c : Commit} {acc : Acc} (h : verifyAcc env c 
 
 /-! ### what is counted -/
 
-theorem entryValid_lt {env : Env} {c : Commit} {e : Entry} (h : entryValid env c e = true) :
-    e.id < env.n := by
+theorem entryValid_mem {env : Env} {c : Commit} {e : Entry} (h : entryValid env c e = true) :
+    e.id ∈ env.auths := by
   simp [entryValid] at h; exact h.2
 
 /-- every key the code counts is a current authority that supports the commit in the sense of the
@@ -229,7 +234,7 @@ theorem entryValid_lt {env : Env} {c : Commit} {e : Entry} (h : entryValid env c
 theorem C18_counted_are_distinct_supporters {env : Env} {c : Commit} {acc : Acc}
     (h : verifyAcc env c = .ok acc) :
     (acc.sup ++ acc.eqv).Nodup ∧
-      ∀ id, id ∈ acc.sup ++ acc.eqv → id < env.n ∧ supports env c id = true := by
+      ∀ id, id ∈ acc.sup ++ acc.eqv → id ∈ env.auths ∧ supports env c id = true := by
   have inv := inv_verifyAcc h
   refine ⟨?_, ?_⟩
   · rw [List.nodup_append]
@@ -241,12 +246,12 @@ theorem C18_counted_are_distinct_supporters {env : Env} {c : Commit} {acc : Acc}
     rcases List.mem_append.mp hid with hs | hq
     · obtain ⟨e, h1, h2, h3, h4⟩ := inv.sup id hs
       subst h2
-      refine ⟨entryValid_lt h3, ?_⟩
+      refine ⟨entryValid_mem h3, ?_⟩
       simp only [supports, hasValidOnChain, Bool.or_eq_true, List.any_eq_true]
       exact Or.inl ⟨e, h1, by simp [h3, h4]⟩
     · obtain ⟨e₁, e₂, h1, h2, h3, h4, h5, h6, h7⟩ := inv.eqv id hq
       subst h3
-      refine ⟨entryValid_lt h5, ?_⟩
+      refine ⟨entryValid_mem h5, ?_⟩
       simp only [supports, hasTwoValid, Bool.or_eq_true, List.any_eq_true]
       exact Or.inr ⟨e₁, h1, e₂, h2, by simp [h4, h5, h6, h7]⟩
 
@@ -254,7 +259,7 @@ theorem C18_counted_are_distinct_supporters {env : Env} {c : Commit} {acc : Acc}
 theorem count_le_specCount {env : Env} {c : Commit} {acc : Acc} (h : verifyAcc env c = .ok acc) :
     acc.count ≤ specCount env c := by
   obtain ⟨hn, hall⟩ := C18_counted_are_distinct_supporters h
-  have := length_le_countP_range (supports env c) env.n (acc.sup ++ acc.eqv) hn hall
+  have := length_le_countP (supports env c) env.auths (acc.sup ++ acc.eqv) hn hall
   simpa [Acc.count, specCount] using this
 
 /-- `validAndEqv` as a function of the inputs (0 when the function returned before the comparison) -/
@@ -309,7 +314,8 @@ theorem C18_finalise_sound_partial {env : Env} {c : Commit}
     (handleCommit env c).fin = some (c.tblk, c.round, env.set) ∧
       env.tree.known c.tblk = true ∧ env.tree.depth c.tblk = c.tnum ∧
       supermajority (specCount env c) env.n = true := by
-  unfold handleCommit at h ⊢
+  unfold handleCommit handleCommitG at h ⊢
+  simp only [Bool.false_eq_true, ↓reduceIte] at h ⊢
   split; · simp_all
   split; · simp_all
   split; · simp_all
@@ -330,14 +336,14 @@ theorem C18_finalise_sound_partial {env : Env} {c : Commit}
 
 /-- two blocks: 0 ← 1 ← 2, and 3 a sibling of 1 -/
 def exTree : Tree := ⟨[0, 1, 0]⟩
-def exEnv (n : Nat) : Env := ⟨n, 0, exTree, 0, false, 0⟩
+def exEnv (n : Nat) : Env := ⟨List.range n, 0, exTree, 0, false, 0⟩
 def exOk (id blk num : Nat) : Entry := ⟨id, blk, num, Sig.honest id blk num 1 0⟩
 def exCommit (es : List Entry) : Commit := ⟨1, 0, 1, 1, es, 0⟩
 
 /-- the negation of the full statement at a concrete witness: 4 authorities, 2 honest precommits -/
 theorem C18_sound_counterexample :
     ∃ (env : Env) (c : Commit), verifyCommit env c = .ok () ∧
-      (handleCommit env c).fin = some (1, 1, 0) ∧ specCount env c = 2 ∧ env.n = 4 ∧
+      (handleCommit env c).fin = some (1, 1, 0) ∧ specCount env c = 2 ∧ env.auths = [0, 1, 2, 3] ∧
       supermajority (specCount env c) env.n = false :=
   ⟨exEnv 4, exCommit [exOk 0 1 1, exOk 1 2 2], by decide⟩
 
@@ -354,7 +360,8 @@ example : verifyCommit (exEnv 4) (exCommit [exOk 0 1 1, exOk 1 2 2, exOk 2 1 1])
     SetPrecommits -/
 theorem C18_reject_finalises_nothing {env : Env} {c : Commit} (h : verifyCommit env c ≠ .ok ()) :
     (handleCommit env c).fin = none ∧ (handleCommit env c).pc = none := by
-  unfold handleCommit
+  unfold handleCommit handleCommitG
+  simp only [Bool.false_eq_true, ↓reduceIte]
   split; · simp
   split; · simp
   split; · simp
@@ -374,7 +381,8 @@ theorem C18_short_commit_finalises_nothing {env : Env} {c : Commit}
     have := C18_accept_reaches_threshold hv
     omega
   refine ⟨?_, C18_reject_finalises_nothing hv⟩
-  unfold handleCommit
+  unfold handleCommit handleCommitG
+  simp only [Bool.false_eq_true, ↓reduceIte]
   split; · simp
   split; · simp
   split; · simp
@@ -391,7 +399,8 @@ theorem C18_finalises_only_verified_target {env : Env} {c : Commit} {x : Nat × 
     (h : (handleCommit env c).fin = some x) :
     x = (c.tblk, c.round, env.set) ∧ verifyCommit env c = .ok () ∧ env.has = false ∧
       env.tree.known c.tblk = true ∧ env.tree.depth c.tblk = c.tnum := by
-  unfold handleCommit at h
+  unfold handleCommit handleCommitG at h
+  simp only [Bool.false_eq_true, ↓reduceIte] at h
   split at h; · simp at h
   split at h; · simp at h
   split at h; · simp at h
@@ -431,30 +440,30 @@ theorem C18_accept_set_and_ancestry {env : Env} {c : Commit} (h : verifyCommit e
     with its valid signature (right round, right set) for two different votes -/
 theorem C18_equivocator_needs_two_valid {env : Env} {c : Commit} {acc : Acc}
     (h : verifyAcc env c = .ok acc) (id : Nat) (hid : id ∈ acc.eqv) :
-    id < env.n ∧ ∃ e₁ e₂, e₁ ∈ c.entries ∧ e₂ ∈ c.entries ∧ e₁.id = id ∧ e₂.id = id ∧
+    id ∈ env.auths ∧ ∃ e₁ e₂, e₁ ∈ c.entries ∧ e₂ ∈ c.entries ∧ e₁.id = id ∧ e₂.id = id ∧
       entryValid env c e₁ = true ∧ entryValid env c e₂ = true ∧ e₁.vote ≠ e₂.vote := by
   obtain ⟨e₁, e₂, h1, h2, h3, h4, h5, h6, h7⟩ := (inv_verifyAcc h).eqv id hid
-  exact ⟨by rw [← h3]; exact entryValid_lt h5, e₁, e₂, h1, h2, h3, h4, h5, h6, h7⟩
+  exact ⟨by rw [← h3]; exact entryValid_mem h5, e₁, e₂, h1, h2, h3, h4, h5, h6, h7⟩
 
 /-- a key is counted as an ordinary supporter only for a valid precommit on the target's chain,
     and never together with being counted as an equivocator -/
 theorem C18_supporter_needs_valid_on_chain {env : Env} {c : Commit} {acc : Acc}
     (h : verifyAcc env c = .ok acc) (id : Nat) (hid : id ∈ acc.sup) :
-    id < env.n ∧ id ∉ acc.eqv ∧ ∃ e, e ∈ c.entries ∧ e.id = id ∧ entryValid env c e = true ∧
+    id ∈ env.auths ∧ id ∉ acc.eqv ∧ ∃ e, e ∈ c.entries ∧ e.id = id ∧ entryValid env c e = true ∧
       onChain env c e = true := by
   have inv := inv_verifyAcc h
   obtain ⟨e, h1, h2, h3, h4⟩ := inv.sup id hid
-  exact ⟨by rw [← h2]; exact entryValid_lt h3, inv.disj id hid, e, h1, h2, h3, h4⟩
+  exact ⟨by rw [← h2]; exact entryValid_mem h3, inv.disj id hid, e, h1, h2, h3, h4⟩
 
 /-- validity of an entry is exactly: the authority's own untouched precommit signature over this
     vote, the commit's round and the current set -/
 theorem C18_valid_iff (env : Env) (c : Commit) (e : Entry) :
     entryValid env c e = true ↔
-      e.sig = ⟨false, e.id, 1, e.blk, e.num, c.round, env.set, 0⟩ ∧ e.id < env.n := by
-  simp only [entryValid, Sig.honest, Bool.and_eq_true, decide_eq_true_eq]
+      e.sig = ⟨false, e.id, 1, e.blk, e.num, c.round, env.set, 0⟩ ∧ e.id ∈ env.auths := by
+  simp only [entryValid, Sig.honest, Bool.and_eq_true]
   constructor
-  · intro ⟨h1, h2⟩; exact ⟨of_decide_eq_true h1, h2⟩
-  · intro ⟨h1, h2⟩; exact ⟨decide_eq_true h1, h2⟩
+  · intro ⟨h1, h2⟩; exact ⟨of_decide_eq_true h1, List.contains_iff_mem.mp h2⟩
+  · intro ⟨h1, h2⟩; exact ⟨decide_eq_true h1, List.contains_iff_mem.mpr h2⟩
 
 /-- non-vacuity: a real equivocator (two valid precommits, neither on the target's chain) is counted
     once; one valid plus one badly signed entry is no equivocation; garbage pairs count nothing -/
@@ -468,30 +477,6 @@ example :
   decide
 
 /-! ### the count is exact: every supporting authority is counted -/
-
-/-- if every number below `n` with `p` is in `l`, there are at most `l.length` of them -/
-theorem countP_range_le_length (p : Nat → Bool) :
-    ∀ (n : Nat) (l : List Nat), (∀ x, x < n → p x = true → x ∈ l) →
-      (List.range n).countP p ≤ l.length := by
-  intro n
-  induction n with
-  | zero => intro l _; simp
-  | succ n ih =>
-    intro l h
-    rw [List.range_succ, List.countP_append]
-    have ih' := ih (l.erase n) (by
-      intro x hx hp
-      have hm := h x (by omega) hp
-      exact (List.mem_erase_of_ne (by omega)).mpr hm)
-    by_cases hp : p n = true
-    · have hm := h n (by omega) hp
-      have hl := List.length_erase_of_mem hm
-      have hpos : 0 < l.length := List.length_pos_of_mem hm
-      have h1 : List.countP p [n] = 1 := by simp [hp]
-      omega
-    · have h1 : List.countP p [n] = 0 := by simp [hp]
-      have := List.length_erase_le (a := n) (l := l)
-      omega
 
 /-- the block of a vote is the target or a descendant -/
 def voteOnChain (env : Env) (c : Commit) (v : Nat × Nat) : Bool :=
@@ -675,9 +660,10 @@ theorem supporters_are_counted {env : Env} {c : Commit} {acc : Acc}
 /-- `validAndEqv` IS the number of distinct supporting authorities when no valid precommit names an
     unknown block -/
 theorem C18_count_exact {env : Env} {c : Commit} {acc : Acc}
-    (h : verifyAcc env c = .ok acc) (hall : allSeen env c) : acc.count = specCount env c := by
+    (h : verifyAcc env c = .ok acc) (hall : allSeen env c) (hnd : env.auths.Nodup) :
+    acc.count = specCount env c := by
   have hle := count_le_specCount h
-  have hge := countP_range_le_length (supports env c) env.n (acc.sup ++ acc.eqv)
+  have hge := countP_le_length (supports env c) env.auths (acc.sup ++ acc.eqv) hnd
     (fun x _ hp => supporters_are_counted h hall x hp)
   simp only [specCount, Acc.count] at *
   simp only [List.length_append] at hge
@@ -687,9 +673,9 @@ theorem C18_count_exact {env : Env} {c : Commit} {acc : Acc}
     without a header/number error, the commit is accepted exactly when at least ⌊2n/3⌋ distinct
     authorities support it -/
 theorem C18_accept_iff {env : Env} {c : Commit} {acc : Acc}
-    (h : verifyAcc env c = .ok acc) (hall : allSeen env c) :
+    (h : verifyAcc env c = .ok acc) (hall : allSeen env c) (hnd : env.auths.Nodup) :
     verifyCommit env c = .ok () ↔ thr env.n ≤ specCount env c := by
-  have hc := C18_count_exact h hall
+  have hc := C18_count_exact h hall hnd
   unfold verifyCommit
   rw [h]
   simp only
@@ -700,6 +686,134 @@ theorem C18_accept_iff {env : Env} {c : Commit} {acc : Acc}
   · constructor
     · intro _; omega
     · intro _; rfl
+
+/-! ### histories: commits and authority-set changes on one Service -/
+
+theorem stateAfter_append (t : Tree) (s : Svc) (a b : List Op) :
+    stateAfter t s (a ++ b) = stateAfter t (stateAfter t s a) b := by
+  simp [stateAfter, List.foldl_append]
+
+theorem stateAfter_cons (t : Tree) (s : Svc) (op : Op) (ops : List Op) :
+    stateAfter t s (op :: ops) = stateAfter t (stepOp t s op).1 ops := by
+  simp [stateAfter]
+
+/-- the trace of a history, cut at any op: the op is executed in the state the prefix left -/
+theorem run_split (t : Tree) : ∀ (pre : List Op) (s : Svc) (op : Op) (post : List Op),
+    run t (pre ++ op :: post) s =
+      run t pre s ++ (stepOp t (stateAfter t s pre) op).2 ::
+        run t post (stepOp t (stateAfter t s pre) op).1 := by
+  intro pre
+  induction pre with
+  | nil => intro s op post; simp [run, runG, stepOp, stateAfter]
+  | cons p ps ih =>
+    intro s op post
+    have := ih (stepOp t s p).1 op post
+    simp only [run, stepOp] at this ⊢
+    simp only [List.cons_append, runG, stateAfter_cons, stepOp, this]
+
+/-- handling a commit never changes the authority set or the set id -/
+theorem commit_keeps_set (t : Tree) (s : Svc) (f : Nat) (c : Commit) :
+    (stepOp t s (.commit f c)).1.auths = s.auths ∧ (stepOp t s (.commit f c)).1.set = s.set := by
+  simp only [stepOp, stepOpG, Svc.record]
+  split
+  · split <;> simp
+  · simp
+
+theorem commits_keep_set (t : Tree) : ∀ (cs : List Op) (s : Svc),
+    (∀ op ∈ cs, ∃ f c, op = .commit f c) →
+      (stateAfter t s cs).auths = s.auths ∧ (stateAfter t s cs).set = s.set := by
+  intro cs
+  induction cs with
+  | nil => intro s _; simp [stateAfter]
+  | cons op ops ih =>
+    intro s h
+    obtain ⟨f, c, rfl⟩ := h op (List.mem_cons_self ..)
+    rw [stateAfter_cons]
+    have h1 := ih (stepOp t s (.commit f c)).1 (fun o ho => h o (List.mem_cons_of_mem _ ho))
+    have h2 := commit_keeps_set t s f c
+    exact ⟨h1.1.trans h2.1, h1.2.trans h2.2⟩
+
+/-- `updateAuthorities`: a set change to another set id installs exactly the new voters ... -/
+theorem setchange_installs (t : Tree) (s : Svc) (ns : Nat) (vs : List Nat) (h : ns ≠ s.set) :
+    (stepOp t s (.setchange ns vs)).1.auths = vs ∧ (stepOp t s (.setchange ns vs)).1.set = ns := by
+  simp [stepOp, stepOpG, Svc.setchange, h]
+
+/-- ... and one that names the current set id changes nothing (the code's `currSetID == s.state.setID`) -/
+theorem setchange_same_id (t : Tree) (s : Svc) (vs : List Nat) :
+    (stepOp t s (.setchange s.set vs)).1 = s := by
+  simp [stepOp, stepOpG, Svc.setchange]
+
+/-- after a set change and any number of commits, the Service is in the new set with the new voters -/
+theorem C18_history_current_set (t : Tree) (s0 : Svc) (pre cs : List Op) (ns : Nat) (vs : List Nat)
+    (h : ns ≠ (stateAfter t s0 pre).set) (hc : ∀ op ∈ cs, ∃ f c, op = .commit f c) :
+    (stateAfter t s0 (pre ++ .setchange ns vs :: cs)).auths = vs ∧
+      (stateAfter t s0 (pre ++ .setchange ns vs :: cs)).set = ns := by
+  rw [stateAfter_append, stateAfter_cons]
+  have h1 := commits_keep_set t cs (stepOp t (stateAfter t s0 pre) (.setchange ns vs)).1 hc
+  have h2 := setchange_installs t (stateAfter t s0 pre) ns vs h
+  exact ⟨h1.1.trans h2.1, h1.2.trans h2.2⟩
+
+/- The property over histories:
+
+     after ANY history of commits and set changes, a commit that makes the Service call
+     SetFinalisedHash is backed by more than two thirds of the authorities of the set the Service is
+     in at that moment
+
+   fails for the code only through the non-strict threshold (known finding); what holds: -/
+
+/-- After any history `pre` on one Service, the next commit is handled against the authority set and
+    set id the Service is in NOW (`stateAfter`): if SetFinalisedHash is called, it is for the commit's
+    own target/round and the current set id, at least ⌊2n/3⌋ DISTINCT authorities OF THE CURRENT SET
+    support the commit (n = size of the current set), every counted key is a current authority, and
+    outside `validAndEqv = ⌊2n/3⌋` they are more than two thirds. -/
+theorem C18_history_sound_partial (t : Tree) (s0 : Svc) (pre post : List Op) (f : Nat) (c : Commit) :
+    let s := stateAfter t s0 pre
+    let env := envOf t s f c
+    let o := handleCommit env c
+    run t (pre ++ .commit f c :: post) s0 = run t pre s0 ++ .commit o :: run t post (s.record f o) ∧
+    (o.fin ≠ none →
+      o.fin = some (c.tblk, c.round, s.set) ∧ c.set = s.set ∧
+      thr s.auths.length ≤ s.auths.countP (supports env c) ∧
+      (∃ acc, verifyAcc env c = .ok acc ∧ (acc.sup ++ acc.eqv).Nodup ∧
+        thr s.auths.length ≤ (acc.sup ++ acc.eqv).length ∧
+        ∀ id, id ∈ acc.sup ++ acc.eqv → id ∈ s.auths ∧ supports env c id = true) ∧
+      (codeCount env c ≠ thr s.auths.length →
+        supermajority (s.auths.countP (supports env c)) s.auths.length = true)) := by
+  intro s env o
+  refine ⟨by simpa [stepOp, stepOpG] using run_split t pre s0 (.commit f c) post, ?_⟩
+  intro hfin
+  obtain ⟨x, hx⟩ := Option.ne_none_iff_exists'.mp hfin
+  have hv := C18_finalises_only_verified_target hx
+  obtain ⟨acc, ha, ht⟩ := verifyCommit_ok hv.2.1
+  have hd := C18_counted_are_distinct_supporters ha
+  have hset := (C18_accept_set_and_ancestry hv.2.1).1
+  refine ⟨by rw [hx, hv.1]; rfl, hset, C18_accept_reaches_threshold hv.2.1, ⟨acc, ha, hd.1, ?_, hd.2⟩, ?_⟩
+  · simpa [Acc.count, Env.n, env, envOf] using ht
+  · intro hreg
+    exact C18_sound_partial hv.2.1 hreg
+
+/-- a commit that does not make it leaves the Service state (highest finalised block, finalised
+    rounds, authority set) exactly as it was -/
+theorem C18_history_reject_keeps_state (t : Tree) (s : Svc) (f : Nat) (c : Commit)
+    (h : verifyCommit (envOf t s f c) c ≠ .ok ()) : (stepOp t s (.commit f c)).1 = s := by
+  have := (C18_reject_finalises_nothing h).1
+  simp [stepOp, stepOpG, Svc.record, this]
+
+/-- the coordinator's scenario, on the model: authorities {0,1,2,3} of set 0 are replaced by {2,4,5}
+    in set 1.  A set-1 commit signed by the three that LEFT (0,1,3) finalises nothing; one signed by
+    the two newcomers (4,5) reaches ⌊2·3/3⌋ = 2 of the NEW set. -/
+def exSig (id blk num round set : Nat) : Entry := ⟨id, blk, num, Sig.honest id blk num round set⟩
+
+example :
+    let s0 : Svc := ⟨[0, 1, 2, 3], 0, 0, []⟩
+    let h := [Op.commit 0 ⟨1, 0, 1, 1, [exSig 0 1 1 1 0, exSig 1 1 1 1 0, exSig 3 1 1 1 0], 0⟩,
+              Op.setchange 1 [2, 4, 5],
+              Op.commit 0 ⟨2, 1, 2, 2, [exSig 0 2 2 2 1, exSig 1 2 2 2 1, exSig 3 2 2 2 1], 0⟩,
+              Op.commit 0 ⟨3, 1, 2, 2, [exSig 4 2 2 3 1, exSig 5 2 2 3 1], 0⟩]
+    (run exTree h s0).map (fun o => match o with | .commit o => o.fin | .set _ _ => none) =
+      [some (1, 1, 0), none, none, some (2, 3, 1)] ∧
+    (stateAfter exTree s0 h).auths = [2, 4, 5] := by
+  decide
 
 /-! ### the defects that were repaired (historical model of the code before the `fix:` commits) -/
 
